@@ -112,7 +112,7 @@ CallsFor(kind, n, d) ==
   \cup {<<"concat", x>> : x \in OperandDescs}
   \cup {<<"rconcat", x>> : x \in OperandDescs}
   \cup (IF kind = "array" THEN {<<"to_stack", <<k>>>> : k \in 1..2} ELSE {})
-  \cup {<<"repeat", <<k>>>> : k \in 1..2}
+  \cup {<<"repeat", <<k>>>> : k \in 0..2}
   \cup (IF kind = "array" THEN {<<"del_atom", x>> : x \in IntArgs((-n-1)..n, ZooInts(n))} ELSE {})
   \cup (IF kind = "stack" THEN {<<"del_model", x>> : x \in IntArgs((-d-1)..d, ZooInts(d))} ELSE {})
   \cup (IF kind = "array"
@@ -132,6 +132,7 @@ CallsFor(kind, n, d) ==
         <<"set_bonds", <<n, <<<<1, 0, 2>>, <<0, 1, 1>>, <<-1, 0, 9>>>>>>>>, <<"set_bonds", <<n + 1, <<>>>>>>}
   \cup {<<"clear_bonds", <<>>>>, <<"set_box", <<5>>>>, <<"clear_box", <<>>>>, <<"copy", <<>>>>,
         <<"copy_poke", <<>>>>, <<"poke_after_copy", <<>>>>}
+  \cup {<<"derived_edit", <<h>>>> : h \in {"slice", "model", "repeat1", "stack1"}}
   \cup {<<"from_template", <<k, b>>>> : k \in 1..2, b \in BOOLEAN}
 
 \* every index / integer position of the call is in its default form
